@@ -30,31 +30,31 @@ OPTS = {
 FROM_REAL = {"struct PageNumber", "struct Allocators", "struct InMemoryState"}
 
 
-def embed(R, P):
-    """indices in P matching R as a subsequence, preferring long contiguous runs; None if impossible"""
-    sm = difflib.SequenceMatcher(None, R, P, autojunk=False)
-    m = {}
-    for a, b, n in sm.get_matching_blocks():
-        for d in range(n):
-            m[a + d] = b + d
-    if len(m) == len(R):
-        return [m[i] for i in range(len(R))]
-    # fall back: DP over (i, j): can R[i:] embed into P[j:]
+def depths(T):
+    out, d = [], 0
+    for x in T:
+        if x in (")", "]", "}"):
+            d -= 1
+        out.append(d)
+        if x in ("(", "[", "{"):
+            d += 1
+    return out
+
+
+def embed_plain(R, P):
+    """DP subsequence embedding preferring adjacency; None if impossible"""
     n, k = len(R), len(P)
     ok = [[False] * (k + 2) for _ in range(n + 1)]
-    for j in range(k + 1):
+    for j in range(k + 2):
         ok[n][j] = True
     for i in range(n - 1, -1, -1):
         for j in range(k - 1, -1, -1):
             ok[i][j] = ok[i][j + 1] or (R[i] == P[j] and ok[i + 1][j + 1])
     if not ok[0][0]:
         return None
-    # reconstruct, preferring to stay adjacent to previous match, else the *latest* feasible position
-    # for closing tokens and earliest for others
     res = []
     j = 0
     for i in range(n):
-        # candidates: positions p>=j with R[i]==P[p] and ok[i+1][p+1]
         if res and res[-1] + 1 < k and P[res[-1] + 1] == R[i] and ok[i + 1][res[-1] + 2]:
             p = res[-1] + 1
         else:
@@ -63,6 +63,51 @@ def embed(R, P):
                 p += 1
         res.append(p)
         j = p + 1
+    return res
+
+
+def embed(R, P):
+    """indices in P matching R as a subsequence.  First align (token, bracket depth) pairs, so that code
+    tokens are never matched inside a deeper annotation block; then fill the gaps (return types wrapped
+    as `(r: T)`) by plain embedding inside the corresponding gap of P."""
+    Rd = list(zip(R, depths(R)))
+    dp = depths(P)
+    # `-> (r: T)`: the named-return wrapper does not count as a bracket level for T
+    for x in range(len(P) - 3):
+        if P[x] == "->" and P[x + 1] == "(" and P[x + 3] == ":":
+            d0 = dp[x + 1]
+            y = x + 2
+            while not (P[y] == ")" and dp[y] == d0):
+                dp[y] -= 1
+                y += 1
+            dp[x + 1] = -1
+            dp[y] = -1
+    Pd = list(zip(P, dp))
+    sm = difflib.SequenceMatcher(None, Rd, Pd, autojunk=False)
+    m = {}
+    for a, b, n in sm.get_matching_blocks():
+        for d in range(n):
+            m[a + d] = b + d
+    # fill gaps
+    i = 0
+    n = len(R)
+    while i < n:
+        if i in m:
+            i += 1
+            continue
+        j = i
+        while j < n and j not in m:
+            j += 1
+        lo = m[i - 1] + 1 if i > 0 else 0
+        hi = m[j] if j < n else len(P)
+        sub = embed_plain(R[i:j], P[lo:hi])
+        if sub is None:
+            return embed_plain(R, P)
+        for d, x in enumerate(sub):
+            m[i + d] = lo + x
+        i = j
+    res = [m[i] for i in range(n)]
+    assert all(res[i] < res[i + 1] for i in range(n - 1))
     return res
 
 
@@ -100,6 +145,10 @@ def annotate(ptext, ptoks, matched):
         out.append(ptext[pos:a])
         body = ptext[a:b]
         assert "@*/" not in body
+        bt = [x.text for x in ptoks[i:j + 1]]
+        bal = sum(1 for x in bt if x in "([{" and len(x) == 1) - sum(1 for x in bt if x in ")]}" and len(x) == 1)
+        if bal != 0 and not (bt[0] == "(" and bt[-1] == ":") and bt != [")"]:
+            print("  unbalanced annotation run:", " ".join(bt)[:100])
         out.append("/*@ " + body + " @*/")
         pos = b
         i = j + 1
